@@ -81,6 +81,32 @@ func (o *c17Oracle) after(ch *chain, ci *callInfo) *Violation {
 		o.c.Label("panic:" + ci.Kind + ":" + panicClass(ci.Panic))
 		return nil
 	}
+	// "only through a governance message": nothing else - another transaction, BeginBlock, EndBlock, Commit, a
+	// restart - may change a parameter or lower the DAO balance
+	isGov := false
+	if ci.Kind == "tx" && ci.Built != nil && ci.Built.Msg != nil {
+		switch ci.Built.Msg.(type) {
+		case govtypes.MsgChangeParam, govtypes.MsgDAOTransfer, govtypes.MsgUpgrade:
+			isGov = true
+		}
+	}
+	if !isGov && ci.Before != nil && ci.After != nil && ci.Kind != "initchain" {
+		pn := sdk.ParamsKey.Name()
+		for k, bv := range ci.Before.Raw[pn] {
+			if av, ok := ci.After.Raw[pn][k]; !ok || !bytes.Equal(av, bv) {
+				return violf("C17/param-changed-without-governance-message", "%s at height %d (block %d tx %d): parameter %s changed from %s to %s", ci.Kind, ci.Height, ci.BlockIx, ci.TxIx, k, bv, ci.After.Raw[pn][k])
+			}
+		}
+		for k := range ci.After.Raw[pn] {
+			if _, ok := ci.Before.Raw[pn][k]; !ok {
+				return violf("C17/param-changed-without-governance-message", "%s at height %d (block %d tx %d): parameter %s appeared", ci.Kind, ci.Height, ci.BlockIx, ci.TxIx, k)
+			}
+		}
+		dao := authtypes.NewModuleAddress(govtypes.DAOAccountName)
+		if ci.After.coinsOf(dao).LT(ci.Before.coinsOf(dao)) {
+			return violf("C17/dao-funds-moved-without-authority", "%s at height %d (block %d tx %d): the DAO balance fell from %s to %s without a DAO message", ci.Kind, ci.Height, ci.BlockIx, ci.TxIx, ci.Before.coinsOf(dao), ci.After.coinsOf(dao))
+		}
+	}
 	if ci.Kind != "tx" || ci.Built == nil || ci.Built.Msg == nil {
 		return nil
 	}
